@@ -143,7 +143,8 @@ Proof.
   { split; cbn [f_ins f_outs].
     - constructor; [|constructor]. intros Hn. vm_compute in Hn. discriminate.
     - constructor; [|constructor]. split; [eexists; vm_compute; reflexivity | vm_compute; reflexivity]. }
-  split; [vm_compute; reflexivity|]. repeat split; vm_compute; reflexivity.
+  split; [vm_compute; reflexivity|]. split; [vm_compute; reflexivity|]. split; [vm_compute; reflexivity|].
+  split; vm_compute; reflexivity.
 Qed.
 
 (* a mainnet transaction with two inputs and two outputs (tests/transaction.rs) *)
@@ -154,13 +155,16 @@ Example C01_nonvacuous_mainnet :
   canonical mainnet_tx = true /\
   exists f t, decode_fields_spec mainnet_tx = Some f /\ scripts_ok f /\ tx_from_bytes mainnet_tx = Ok t /\ tx_bytes t = mainnet_tx
     /\ length (inputs t) = 2 /\ length (outputs t) = 2 /\ tx_is_coinbase t = false
-    /\ satoshis_out true t = Ok 1190000%N.
+    /\ satoshis_out true t = Ok 1193488%N.
 Proof.
   split; [vm_compute; reflexivity|]. eexists. eexists.
   split; [vm_compute; reflexivity|].
   split.
-  { split; cbn [f_ins f_outs]; repeat constructor; try (intros _); try (eexists; vm_compute; reflexivity); vm_compute; reflexivity. }
-  split; [vm_compute; reflexivity|]. repeat split; vm_compute; reflexivity.
+  { split; cbn [f_ins f_outs].
+    - constructor; [|constructor; [|constructor]]; intros _; (split; [eexists; vm_compute; reflexivity | vm_compute; reflexivity]).
+    - constructor; [|constructor; [|constructor]]; (split; [eexists; vm_compute; reflexivity | vm_compute; reflexivity]). }
+  split; [vm_compute; reflexivity|]. split; [vm_compute; reflexivity|]. split; [vm_compute; reflexivity|].
+  split; [vm_compute; reflexivity|]. split; vm_compute; reflexivity.
 Qed.
 
 (* a non-canonical accepted byte string (count in the 3-byte form, one trailing byte) normalises *)
@@ -173,4 +177,4 @@ Proof. split; [vm_compute; reflexivity|]. eexists; split; vm_compute; reflexivit
 Example C01_overflow_witness :
   exists t, tx_from_bytes (hexb "010000000002000000000000008001510000000000000080015100000000") = Ok t
             /\ spec_total_out (fields_of t) = 18446744073709551616%N /\ satoshis_out true t = Panic.
-Proof. eexists; repeat split; vm_compute; reflexivity. Qed.
+Proof. eexists. split; [vm_compute; reflexivity|]. split; vm_compute; reflexivity. Qed.
